@@ -6,7 +6,9 @@ package main
 
 func init() {
 	extraNatives = append(extraNatives, func(e *Engine) {
-		e.natives["(time.Time).Sub"] = nativeTimeSub
+		if optTrust2Time {
+			e.natives["(time.Time).Sub"] = nativeTimeSub
+		}
 	})
 }
 
